@@ -262,8 +262,9 @@ def run(ctx):
     ctx.sample({"option_seed": seeds[0], "schedules": [s["name"] for s in schedules(random.Random(0), 3)], "hash_seeds": hs})
     ctx.cov["components"] = {"real": ["run.run incl. instantiate_and_seed_RNG and rng.spawn (untouched)", "run_phyclone_chain and all samplers", "load_data",
                                       "trace writer"],
-                             "stand_in": ["ProcessPoolExecutor/as_completed -> SimExecutor: chains run in-process, arguments and results cross a pickle boundary, "
-                                          "a fresh simulated worker starts with empty memo caches, a reused one keeps them", "trace file -> SimFS", "clock -> SimClock"]}
+                             "stand_in": ["ProcessPoolExecutor/as_completed -> SimExecutor: one simulated worker = one forked child of the warm simulator process (own "
+                                          "address space); chains scheduled on the same worker run one after the other inside it; arguments and results cross a pickle "
+                                          "boundary; what the OS reports as available cores is simulated in two schedules", "trace file -> SimFS", "clock -> SimClock"]}
     ctx.assumptions += ["interpreter start-up of spawned workers is not simulated; the real spawn pool is observed in the thorough tier only",
                         "a single-chain run is not compared with chain 0 of a multi-chain run (the code hands spawned generators to chains only when chains > 1)"]
 
